@@ -594,12 +594,13 @@ class Phase(Angle):
 
     def argsort(self, axis=-1):
         """Returns the indices that would sort the phase array."""
-        phase_approx = self.cycle
-        phase_remainder = (self - phase_approx).cycle
+        # A normalised phase (|frac| <= 1/2) is ordered exactly by (count, fraction).
+        raw = self.view(np.ndarray)
+        count, frac = raw["int"], raw["frac"]
         if axis is None:
-            return np.lexsort((phase_remainder.ravel(), phase_approx.ravel()))
+            return np.lexsort((frac.ravel(), count.ravel()))
         else:
-            return np.lexsort(keys=(phase_remainder, phase_approx), axis=axis)
+            return np.lexsort(keys=(frac, count), axis=axis)
 
     # Below are basically straight copies from Time
     def min(self, axis=None, out=None, keepdims=False):
